@@ -326,6 +326,8 @@ pub struct Explorer<'a> {
 	/// probe-heavy engines: every shard walks the whole (small) state graph and the probes are
 	/// divided among the shards by hash of (state, probe)
 	pub probe_split: bool,
+	/// model of the base directory (blocks already accepted by a prelude)
+	pub base_model: Model,
 }
 
 pub fn case_json(inst: &str, tree: &Tree, prefix: &[Ev]) -> Value {
@@ -355,7 +357,20 @@ impl<'a> Explorer<'a> {
 			branch_ctr: 0,
 			parent_first: false,
 			probe_split: false,
+			base_model: Model::default(),
 		}
+	}
+
+	/// Start from a state reached by a prelude (already applied to the base directory).
+	pub fn with_prelude(tree: &'a Tree, sc: &'a uni::Scratch, opts: Options, inst: &str, prelude: &[Ev]) -> Explorer<'a> {
+		let mut ex = Explorer::new(tree, sc, opts, inst);
+		let mut live = Live::open(tree, &ex.base, opts);
+		for e in prelude {
+			let o = live.apply(e);
+			assert!(o.ok, "prelude {} failed: {}", e.show(tree), o.err);
+		}
+		ex.base_model = live.model.clone();
+		ex
 	}
 
 	/// Execute a prefix on a fresh copy; returns the live object, the fingerprint before the
@@ -411,7 +426,8 @@ impl<'a> Explorer<'a> {
 		};
 		let mut prefix = vec![];
 		let range = if self.probe_split { (self.shard.0, self.shard.0 + 1) } else { (0usize, self.shard.1) };
-		self.snap(&mut prefix, &root, &Model::default(), &fp0, &mut remaining, probes, inv, rep, range);
+		let m0 = self.base_model.clone();
+		self.snap(&mut prefix, &root, &m0, &fp0, &mut remaining, probes, inv, rep, range);
 		let _ = std::fs::remove_dir_all(&root);
 	}
 
